@@ -7,7 +7,7 @@ From Miller Require Import C14.Value C14.Stack C14.Model C14.Proofs.
 Open Scope Z_scope.
 
 Definition is_expr_task (t : task) : bool :=
-  match t with TEval _ | TEvals _ | TIdx _ _ | TArgs _ _ | TMapLit _ _ => true | _ => false end.
+  match t with TEval _ | TEvals _ | TIdx _ _ | TArgs _ _ _ | TMapLit _ _ => true | _ => false end.
 
 Definition frame_rel (s s' : astack) : Prop := tl s' = tl s /\ s' <> [].
 
@@ -199,8 +199,8 @@ Lemma eval_call_inv name args st r st' :
   stk st <> [] -> eval_call fns f name args st = Ok (r, st') -> stk st' = stk st.
 Proof.
   intros Hne H. unfold eval_call in H.
-  destruct (find_fn name (List.length args) fns) as [fd|]; [|discriminate].
-  destruct (f (TArgs args (f_params fd)) st) as [[r1 st1]| | |] eqn:E1; cbn [bind] in H; try discriminate.
+  destruct (find_fn false name (List.length args) fns) as [fd|]; [|discriminate].
+  destruct (f (TArgs false args (f_params fd)) st) as [[r1 st1]| | |] eqn:E1; cbn [bind] in H; try discriminate.
   apply rec_expr_inv in E1; [|exact HP|reflexivity|assumption].
   destruct r1; try discriminate.
   destruct (bind_params (f_params fd) vs (a_push_set (stk st1))) as [s2|] eqn:E2; [|discriminate].
@@ -211,6 +211,26 @@ Proof.
   assert (Hpop : a_pop_set (stk st3) = stk st1).
   { apply pop_after_call; [congruence| |exact (proj2 E3)]. destruct E3 as [E3 _]. destruct F2 as [F2 _]. rewrite E3, F2. reflexivity. }
   destruct o; go f HP; simp_stk; congruence.
+Qed.
+
+Lemma exec_call_inv name args st r st' :
+  stk st <> [] -> exec_call fns f name args st = Ok (r, st') -> stk st' = stk st.
+Proof.
+  intros Hne H. unfold exec_call in H.
+  destruct (find_fn true name (List.length args) fns) as [fd|]; [|discriminate].
+  destruct (f (TArgs true args (f_params fd)) st) as [[r1 st1]| | |] eqn:E1; cbn [bind] in H; try discriminate.
+  apply rec_expr_inv in E1; [|exact HP|reflexivity|assumption].
+  destruct r1 as [v|vs|[l|]|o]; try discriminate.
+  - destruct (bind_params (f_params fd) vs (a_push_set (stk st1))) as [s2|] eqn:E2.
+    + assert (F2 : frame_rel (a_push_set (stk st1)) s2) by (eapply bind_params_frame; [discriminate|exact E2]).
+      destruct (ex f (TBlock (f_body fd)) (set_stk s2 st1)) as [[o st3]| | |] eqn:E3; cbn [bind] in H; try discriminate.
+      apply ex_inv in E3; [|exact HP|reflexivity|simp_stk; exact (proj2 F2)].
+      simp_stk.
+      assert (Hpop : a_pop_set (stk st3) = stk st1).
+      { apply pop_after_call; [congruence| |exact (proj2 E3)]. destruct E3 as [E3 _]. destruct F2 as [F2 _]. rewrite E3, F2. reflexivity. }
+      destruct o; unfold ro in H; inversion H; subst; simp_stk; congruence.
+    + unfold ro in H. inversion H; subst. exact E1.
+  - unfold ro in H. inversion H; subst. exact E1.
 Qed.
 
 Lemma eval_expr_inv e st r st' :
@@ -251,16 +271,17 @@ Lemma fs_poke_frame x v fs fs' (r : astack) : fs_poke x v fs = Some fs' -> frame
 Proof. intros _. split; [reflexivity|discriminate]. Qed.
 
 Lemma assign_local_indexed_inv x vs v st r st' :
-  stk st <> [] -> assign_local_indexed vr x vs v st = Ok (r, st') -> frame_rel (stk st) (stk st').
+  stk st <> [] -> assign_local_indexed x vs v st = Ok (r, st') -> frame_rel (stk st) (stk st').
 Proof.
   intros Hne H. unfold assign_local_indexed, of_pres in H.
   destruct (stk st) as [|fs r0] eqn:Es; [contradiction|].
+  rewrite <- Es in H.
   go f HP; simp_stk; facts; try rewrite Es in *;
     first [ assumption | apply frame_refl; discriminate | (split; [reflexivity|discriminate]) ].
 Qed.
 
 Lemma assign_indexed_inv b vs v st r st' :
-  stk st <> [] -> assign_indexed vr b vs v st = Ok (r, st') -> frame_rel (stk st) (stk st').
+  stk st <> [] -> assign_indexed b vs v st = Ok (r, st') -> frame_rel (stk st) (stk st').
 Proof.
   intros Hne H. unfold assign_indexed, of_pres in H. destruct b.
   - go f HP; close2.
@@ -293,12 +314,12 @@ Ltac stmt_tac :=
   go f HP;
   repeat match goal with
          | H : assign_direct _ _ _ = Ok _ |- _ => apply assign_direct_inv in H; [|ne]
-         | H : assign_indexed _ _ _ _ _ = Ok _ |- _ => apply assign_indexed_inv in H; [|ne]
+         | H : assign_indexed _ _ _ _ = Ok _ |- _ => apply assign_indexed_inv in H; [|ne]
          end;
   try close2.
 
 Lemma exec_stmt_inv s st r st' :
-  stk st <> [] -> exec_stmt vr f s st = Ok (r, st') -> frame_rel (stk st) (stk st').
+  stk st <> [] -> exec_stmt fns f s st = Ok (r, st') -> frame_rel (stk st) (stk st').
 Proof.
   intros Hne H. destruct s; cbn [exec_stmt] in H; unfold loop_after_body in H.
   - (* SAssign *) stmt_tac.
@@ -321,6 +342,7 @@ Proof.
   - stmt_tac.
   - stmt_tac.
   - stmt_tac.
+  - (* SCall *) apply (exec_call_inv fns f HP) in H; [|assumption]. rewrite H. now apply frame_refl.
 Qed.
 
 End StepInv3.
@@ -334,7 +356,7 @@ Hypothesis HP : inv f.
 Ltac t_expr := go f HP; simp_stk; congruence.
 Ltac t_stmt := unfold loop_after_body in *; go f HP; try close2.
 
-Lemma step_inv : inv (step vr fns f).
+Lemma step_inv : inv (step fns f).
 Proof.
   intros t st r st' Hne H. unfold post. destruct t; cbn [is_expr_task step] in *.
   - now apply (eval_expr_inv fns f HP) in H.
@@ -342,7 +364,7 @@ Proof.
   - destruct es; t_expr.
   - destruct es; destruct ps as [|[ty x] ps]; t_expr.
   - destruct kvs as [|[ke ve] rest]; t_expr.
-  - now apply (exec_stmt_inv vr f HP) in H.
+  - now apply (exec_stmt_inv fns f HP) in H.
   - destruct ss; t_stmt.
   - t_stmt.
   - destruct arms as [|[c b] more]; [destruct els|]; t_stmt.
@@ -356,19 +378,19 @@ Qed.
 
 End StepInv4.
 
-Lemma run_inv vr fns fuel : inv (run vr fns fuel).
+Lemma run_inv fns fuel : inv (run fns fuel).
 Proof.
   induction fuel as [|n IH]; [intros t st r st' _ H; discriminate H|].
-  change (run vr fns (S n)) with (step vr fns (run vr fns n)). now apply step_inv.
+  change (run fns (S n)) with (step fns (run fns n)). now apply step_inv.
 Qed.
 
 (* (1) by-value argument passing and fenced callee locals: an expression, whatever functions it calls, leaves the local
    variable stack of its evaluation context exactly as it found it *)
-Lemma expressions_preserve_locals vr fns fuel e st v st' :
-  stk st <> [] -> run vr fns fuel (TEval e) st = Ok (RV v, st') -> stk st' = stk st.
-Proof. intros Hne H. exact (run_inv vr fns fuel (TEval e) st _ _ Hne H). Qed.
+Lemma expressions_preserve_locals fns fuel e st v st' :
+  stk st <> [] -> run fns fuel (TEval e) st = Ok (RV v, st') -> stk st' = stk st.
+Proof. intros Hne H. exact (run_inv fns fuel (TEval e) st _ _ Hne H). Qed.
 
 (* (2) statements only touch the current frameset: all the callers' framesets are unchanged *)
-Lemma statements_preserve_caller_framesets vr fns fuel ss st o st' :
-  stk st <> [] -> run vr fns fuel (TBlock ss) st = Ok (RO o, st') -> tl (stk st') = tl (stk st) /\ stk st' <> [].
-Proof. intros Hne H. exact (run_inv vr fns fuel (TBlock ss) st _ _ Hne H). Qed.
+Lemma statements_preserve_caller_framesets fns fuel ss st o st' :
+  stk st <> [] -> run fns fuel (TBlock ss) st = Ok (RO o, st') -> tl (stk st') = tl (stk st) /\ stk st' <> [].
+Proof. intros Hne H. exact (run_inv fns fuel (TBlock ss) st _ _ Hne H). Qed.
